@@ -538,3 +538,72 @@ def model_interp(v):
             items.append(("IExpr", tuple(_s(p) for p in it[1]), it[2], it[3], None if it[4] == "None" else _s(it[4][1])))
         ext.append((a, b))
     return ("ok", chr(c), items, ext)
+
+
+# ---- forward lexing (Proofs/LexForward.v): token lists of the renderable classes, written with one space between tokens,
+#      must lex back to exactly those tokens with exactly those spans (c17_render_lex_roundtrip / c17_render_kinds_roundtrip)
+
+IDENT_STARTS = "abcxyzsfr_ABZé中"
+IDENT_CONTS = IDENT_STARTS + "0189٣"
+STRING_CHARS = "ab z0,.(){}[]'#$@-=\n\té中\U0001F600"
+
+
+def render_cases(rng, info, n):
+    """n random token lists -> [(source, expected python view of the implementation's tokens incl. Start)]"""
+    kws = list(info.get("keywords") or ["let", "into", "case", "prql", "type", "module", "internal", "func", "import", "enum"])
+    words = [(info.get("true_word", "true"), ("Literal", ("Boolean", True))), (info.get("false_word", "false"), ("Literal", ("Boolean", False))),
+             (info.get("null_word", "null"), ("Literal", ("Null",)))]
+    reserved = set(kws) | {w for w, _ in words}
+    controls = list(info.get("controls") or "><%=+-*[]().,:|!{}/")
+    ops = [(t, k) for t, k, _ in (info.get("ops") or [("->", "ArrowThin", False), ("==", "Eq", False), ("&&", "And", True)])]
+
+    def ident():
+        while True:
+            w = rng.choice(IDENT_STARTS) + "".join(rng.choice(IDENT_CONTS) for _ in range(rng.randint(0, 6)))
+            if rng.random() < 0.3:
+                w = rng.choice(sorted(reserved)) + rng.choice(["x", "_", "1", "s", ""])      # near misses of reserved words
+            if w not in reserved:
+                return w, ("Ident", w)
+
+    def integer():
+        v = rng.choice([0, 1, 7, 42, 100, 2 ** 31, 2 ** 63 - 1, rng.randrange(10 ** rng.randint(1, 18))])
+        return str(v), ("Literal", ("Integer", v))
+
+    def string():
+        b = "".join(rng.choice(STRING_CHARS) for _ in range(rng.randint(0, 8)))
+        return '"' + b + '"', ("Literal", ("String", b))
+
+    def param():
+        b = "".join(rng.choice(IDENT_CONTS + ".") for _ in range(rng.randint(0, 5)))
+        return "$" + b, ("Param", b)
+
+    def keyword():
+        k = rng.choice(kws)
+        return k, ("Keyword", k)
+
+    def word():
+        return rng.choice(words)
+
+    def control():
+        c = rng.choice(controls)
+        return c, ("Control", c)
+
+    def op():
+        t, k = rng.choice(ops)
+        return t, (k,)
+
+    makers = [ident, ident, integer, string, param, keyword, word, control, op]
+    out = []
+    for _ in range(n):
+        toks = [rng.choice(makers)() for _ in range(rng.randint(1, 12))]
+        src, want, pos = "", [(("Start",), 0, 0)], 0
+        for i, (x, k) in enumerate(toks):
+            if i:
+                src += " "
+                pos += 1
+            n_b = len(x.encode("utf-8"))
+            want.append((k, pos, pos + n_b))
+            src += x
+            pos += n_b
+        out.append((src, want))
+    return out
